@@ -227,7 +227,7 @@ func c15required() []string {
 
 var C15 = register(&HistProp{ID: "C15",
 	Genesis: func(t *rapid.T) *sim.GenSpec {
-		return sim.DrawGenesis(t, sim.GenOpts{UsedInGen: true, BigBalances: true, ShortToken: true, UpperPairGen: true})
+		return sim.DrawGenesis(t, sim.GenOpts{UsedInGen: true, BigBalances: true, ShortToken: true, UpperPairGen: true, AbsentOpt: true, CaseLimits: true})
 	},
 	Next: func(g *sim.G, i int) *sim.Op {
 		return Mix{Send: 3, Dep: 3, Recv: 3, Replay: 1, Replace: 2, RepDep: 2, Admin: 10, Ledger: 1, Multi: 1,
@@ -588,7 +588,7 @@ func (c *c19) Summary(w *sim.World) (string, []string) {
 
 var C19 = register(&HistProp{ID: "C19",
 	Genesis: func(t *rapid.T) *sim.GenSpec {
-		return sim.DrawGenesis(t, sim.GenOpts{ManyEntries: true, UsedInGen: true, MaxAtt: 5, ManyUsed: true})
+		return sim.DrawGenesis(t, sim.GenOpts{ManyEntries: true, UsedInGen: true, MaxAtt: 5, ManyUsed: true, AbsentOpt: true, CaseLimits: true})
 	},
 	Next: func(g *sim.G, i int) *sim.Op {
 		return Mix{Admin: 14, Recv: 3, Send: 1, Dep: 1, DepValid: 80, RecvBroken: 15, AdminHolder: 90, Rollback: 6, AttProbe: 3, Restart: 2,
